@@ -353,6 +353,7 @@ func checkC14(w *World, r *Report) {
 	checkConstantCuts(w, r, reach)
 	checkConstantScanBounds(w, r, reach)
 	checkSizeDecidedResults(w, r, reach)
+	checkChainWalkBounds(w, r, "R14.7")
 }
 
 // checkNoAliasedHeaders (R14.3 / R01.7): no string or slice header is manufactured over memory
@@ -762,4 +763,81 @@ func checkSizeDecidedResults(w *World, r *Report, reach map[*ssa.Function]bool) 
 		r.ok("R14.6", "(package)", "no data result is decided by a size class", "-", "no successful return of a data-returning function on load/parse/render paths is control dependent on a size-vs-constant comparison", false)
 	}
 	_ = n
+}
+
+// checkChainWalkBounds (R14.7, also an obligation of C12): a walk along a chain of links (ctx =
+// ctx.parent, node = node.next) goes on until the chain ends.  A loop whose pointer variable is
+// advanced to a field of itself and whose condition also compares a counter with a constant
+// stops looking after a fixed number of links: a macro, variable or block is found or not
+// depending on how deeply the call is nested.
+func checkChainWalkBounds(w *World, r *Report, rule string) {
+	n, bad := 0, 0
+	for _, fn := range w.pkgFuncs() {
+		instrsOf(fn, func(in ssa.Instruction) {
+			ph, ok := in.(*ssa.Phi)
+			if !ok {
+				return
+			}
+			if _, isPtr := ph.Type().Underlying().(*types.Pointer); !isPtr {
+				return
+			}
+			// an edge that is a load of a field of the phi itself
+			link := ""
+			for _, e := range ph.Edges {
+				if u, ok := e.(*ssa.UnOp); ok && u.Op == token.MUL {
+					if fa, ok := u.X.(*ssa.FieldAddr); ok && fa.X == ssa.Value(ph) {
+						_, link = fieldOfAddr(fa)
+					}
+				}
+			}
+			if link == "" {
+				return
+			}
+			n++
+			// counters compared with constants in the conditions that keep the loop going: the
+			// header block and the blocks of its short-circuit chain
+			header := ph.Block()
+			var offending *ssa.BinOp
+			for _, b := range fn.Blocks {
+				if !(b == header || (header.Dominates(b) && len(b.Preds) == 1 && b.Preds[0] == header)) {
+					continue
+				}
+				v, _, ok := ifCond(b)
+				if !ok {
+					continue
+				}
+				var facts []condFact
+				expandCond(v, true, &facts, 0)
+				for _, cf := range facts {
+					bo, ok := cf.v.(*ssa.BinOp)
+					if !ok {
+						continue
+					}
+					switch bo.Op {
+					case token.LSS, token.LEQ, token.GTR, token.GEQ:
+					default:
+						continue
+					}
+					for _, pr := range [][2]ssa.Value{{bo.X, bo.Y}, {bo.Y, bo.X}} {
+						cp, isPhi := pr[0].(*ssa.Phi)
+						k, isC := intConst(pr[1])
+						if isPhi && isC && k >= 2 && cp.Block() == header {
+							if b2, ok := cp.Type().Underlying().(*types.Basic); ok && b2.Info()&types.IsInteger != 0 {
+								offending = bo
+							}
+						}
+					}
+				}
+			}
+			construct := "walk along ." + link + " links is not bounded by a constant"
+			if offending != nil {
+				bad++
+				r.bad(rule, ssaName(fn), construct, w.posOf(offending.Pos()), "the loop that follows the ."+link+" chain also stops when a counter reaches a constant: beyond that many links nothing is found any more, so the same name resolves or not depending on the nesting depth it is used at")
+			} else {
+				r.ok(rule, ssaName(fn), construct, w.posOf(ph.Pos()), "the walk ends only where the chain ends (or the item is found)", false)
+			}
+		})
+	}
+	r.Counts["walks along a chain of links"] = n
+	_ = bad
 }
